@@ -569,12 +569,29 @@ func checkTimeConstants(c *Ctx) {
 			return
 		}
 		k, isC := constInt(b.Y)
+		// smallest value rejected by an upper-limit test: x > k  ==  x >= k+1 (also written k < x, k+1 <= x)
+		rejX, rejFrom, isRej := ssa.Value(nil), int64(0), false
 		switch {
-		case b.Op == token.GTR && b.X == ssa.Value(ts) && isC && k == wantConst["MaxTimestampGlonass"]:
+		case b.Op == token.GTR && isC:
+			rejX, rejFrom, isRej = b.X, k+1, true
+		case b.Op == token.GEQ && isC:
+			rejX, rejFrom, isRej = b.X, k, true
+		default:
+			if kx, isCX := constInt(b.X); isCX {
+				switch b.Op {
+				case token.LSS:
+					rejX, rejFrom, isRej = b.Y, kx+1, true
+				case token.LEQ:
+					rejX, rejFrom, isRej = b.Y, kx, true
+				}
+			}
+		}
+		switch {
+		case isRej && rejX == ssa.Value(ts) && rejFrom == wantConst["MaxTimestampGlonass"]+1:
 			sawMaxG = true
-		case b.Op == token.GTR && b.X == ssa.Value(ts) && isC && k == wantConst["MaxTimestamp"]:
+		case isRej && rejX == ssa.Value(ts) && rejFrom == wantConst["MaxTimestamp"]+1:
 			sawMax = true
-		case b.Op == token.GEQ && isC && k == wantConst["MillisIn24Hours"]:
+		case isRej && rejFrom == wantConst["MillisIn24Hours"]:
 			sawMillis = true
 		case b.Op == token.SHR && b.X == ssa.Value(ts) && isC && k == 27:
 			sawShift = true
